@@ -269,9 +269,12 @@ func (s *steerCtl) releaseAll() {
 
 // stallsSeen counts the stalls recorded by this worker process.  The first one is waited for
 // generously; once a worker has seen a stall (the property is already violated on that case)
-// later waits are short, so that a tree on which every steered case stalls is reported in
+// later waits are short, and after maxStalls stalls the worker stops holding handlers altogether
+// (it has reported enough), so that a tree on which every steered case stalls is reported in
 // bounded time.  On a tree that never stalls nothing changes.
 var stallsSeen int32
+
+const maxStalls = 3
 
 func stallWait() time.Duration {
 	if atomic.LoadInt32(&stallsSeen) > 0 {
@@ -282,7 +285,7 @@ func stallWait() time.Duration {
 
 // hold is called by the first command of task h (any probe kind) after its `cmd` event.
 func (s *steerCtl) hold(h int) {
-	if len(s.c.Steer) == 0 || h < 0 || h >= len(s.c.Tasks) {
+	if len(s.c.Steer) == 0 || h < 0 || h >= len(s.c.Tasks) || atomic.LoadInt32(&stallsSeen) >= maxStalls {
 		return
 	}
 	t := s.c.Tasks[h]
